@@ -95,8 +95,12 @@ def run(pid, tier, seed, replay=None):
     pidx = {p["name"]: i + 1 for i, p in enumerate(sel)}
 
     # ---- spec -> impl: behaviours from TLC
-    gen, by = semlib.enumerate_inputs(sel, work, tier)
-    out.add_tlc(gen, "SemGen (all input databases within the bound; theorems of the semantics on each)")
+    with_sn = pid in ("C01", "C03", "C04", "C07", "C08")
+    gen, by = semlib.enumerate_inputs(sel, work, tier, seminaive=with_sn)
+    out.add_tlc(gen, "SemGen (all input databases within the bound; theorems of the semantics" +
+                (" and SemiNaive = LeastModel" if gen.seminaive_checked else "") + " on each)")
+    if gen.seminaive_checked:
+        out.extra["seminaive_negative_control"] = semlib.seminaive_negative_control(work)
     cases, meta = [], {}
     cid = 0
     nprogs = 0
@@ -116,8 +120,29 @@ def run(pid, tier, seed, replay=None):
                 case = semlib.make_case(cid, p, pidx[p["name"]], v, ops)
                 cases.append(case)
                 meta[cid] = dict(case=case, inputs=c["inputs"], lm=c["lm"], prog=p)
+    # one extra case per program asks the compiled program for its plan (summary()); compared with SemiNaive!PlanOf
+    plan_cases = {}
+    if not replay:
+        for p in sel:
+            if (p["name"], "ser") in mods and p["name"] in gen.plans:
+                cid += 1
+                case = semlib.make_case(cid, p, pidx[p["name"]], "ser", [{"op": "run"}], want_summary=True)
+                cases.append(case)
+                meta[cid] = dict(case=case, inputs={}, lm=by[p["name"]][0]["lm"] if not any(by[p["name"]][0]["inputs"].values()) else {}, prog=p)
+                plan_cases[cid] = p["name"]
     log(f"[sem] {pid}: {nprogs} programs, {len(cases)} cases")
-    finish_cases(out, pid, sel, cases, meta, mods, bindir, work)
+    raw = finish_cases(out, pid, sel, cases, meta, mods, bindir, work)
+    conf, drift = 0, []
+    for cid, name in plan_cases.items():
+        txt = next((e.get("text", "") for e in raw.get(cid, []) if e.get("e") == "summary"), None)
+        if txt is None:
+            continue
+        ok, a, b = semlib.plan_conforms(gen.plans[name], semlib.parse_summary(txt))
+        if ok:
+            conf += 1
+        else:
+            drift.append({"program": name, "model": a, "code": b})
+    out.extra["plan_conformance"] = {"programs_compared": len(plan_cases), "conform": conf, "drift": drift[:10]}
     out.exhaustive = all(len(by[p["name"]]) <= (plan["cap"][tier] or 10**9) for p in sel)
     out.rule = (f"{plan['what']}. TLC (SemGen) enumerates every input database with at most `bound` tuples over the constant "
                 f"domain of each selected program (cap per program and variant: {plan['cap'][tier]}, seeded choice beyond it, largest "
@@ -133,8 +158,9 @@ def run(pid, tier, seed, replay=None):
 
 
 def finish_cases(out, pid, sel, cases, meta, mods, bindir, work, extra_checks=None):
-    """Executes the cases, validates the traces with TLC and turns discrepancies into verdicts."""
+    """Executes the cases, validates the traces with TLC and turns discrepancies into verdicts. Returns the raw events."""
     raw, crashed = semlib.run_cases(cases, mods, bindir, work)
+    raw_all = dict(raw)
     discrepancies = []          # (case id, kind, detail)
     case_events = []
     for crate, rc, tail, culprit, others in crashed:
@@ -204,3 +230,4 @@ def finish_cases(out, pid, sel, cases, meta, mods, bindir, work, extra_checks=No
     if drift:
         out.extra["drift"] = drift
     out.extra["discrepancies"] = len(discrepancies)
+    return raw_all
